@@ -52,6 +52,17 @@ def check_transpose(ctx, x, perm, tag):
         p_eff = tuple(perm)
     exp, _ = G.gtranspose(g.data, g.pars, p_eff)
     via = ("method", "function", "autoray")[hash((tag, p_eff)) % 3] if perm is not None else "method"
+    if perm is not None and x.ndim:
+        # the same permutation with some axes counted from the end (D25), as tuple / list / ndarray
+        k_ = sum((i_ + 2) * p_ for i_, p_ in enumerate(p_eff)) + len(str(tag))
+        if k_ % 3 == 0:
+            perm = tuple((p_ - x.ndim) if ((k_ // 3) >> i_) & 1 else p_ for i_, p_ in enumerate(p_eff))
+            if any(p_ < 0 for p_ in perm):
+                ctx.count("feature", "transpose-axes-counted-from-the-end")
+            if k_ % 2:
+                perm = list(perm)
+            elif k_ % 5 == 0:
+                perm = np.array(perm, dtype=np.int64)
     if via == "method":
         o = ctx.call(lambda: x.transpose(perm))
     elif via == "function":
@@ -61,7 +72,7 @@ def check_transpose(ctx, x, perm, tag):
     ctx.evaluated()
     ctx.count("op", "transpose")
     ctx.count("stream", tag)
-    wit = {"op": "transpose", "perm": perm, "x": describe(x, True)}
+    wit = {"op": "transpose", "perm": repr(perm), "x": describe(x, True)}
     if not o.ok:
         ctx.violation(f"transpose-raises-{o.excname}", f"{o.exc!r}", wit)
         return
